@@ -23,6 +23,7 @@ import (
 	"github.com/ava-labs/avalanchego/snow/engine/snowman/block"
 	"github.com/ava-labs/avalanchego/trace"
 	"github.com/ava-labs/avalanchego/utils/logging"
+	"github.com/ava-labs/avalanchego/x/merkledb"
 	safemath "github.com/ava-labs/avalanchego/utils/math"
 	"github.com/prometheus/client_golang/prometheus"
 
@@ -108,7 +109,18 @@ func c12bParse(f []string) (*c12bCase, bool) {
 	if err != nil || nT < 0 || nT > 64 {
 		return nil, false
 	}
-	pos := 23
+	txs, pos, ok := c12bParseTxs(f, 23, nT)
+	if !ok {
+		return nil, false
+	}
+	c.txs = txs
+	return c, pos == len(f)
+}
+
+// c12bParseTxs reads n transaction descriptions
+// (<size> <authCU> <nActions> (<cu> <nKeys> <key>*)* 1 <sponsor balance key>) starting at f[pos].
+func c12bParseTxs(f []string, pos int, n int) ([]c12bTx, int, bool) {
+	var out []c12bTx
 	next := func() (string, bool) {
 		if pos >= len(f) {
 			return "", false
@@ -136,34 +148,34 @@ func c12bParse(f []string) (*c12bCase, bool) {
 		i := hKeyIndex(string(b))
 		return i, i >= 0
 	}
-	for t := 0; t < nT; t++ {
+	for t := 0; t < n; t++ {
 		var tx c12bTx
 		var ok bool
 		if tx.size, ok = num(); !ok {
-			return nil, false
+			return nil, pos, false
 		}
 		if tx.authCU, ok = num(); !ok {
-			return nil, false
+			return nil, pos, false
 		}
 		nA, ok := num()
 		if !ok || nA > 16 {
-			return nil, false
+			return nil, pos, false
 		}
 		for a := uint64(0); a < nA; a++ {
 			cu, ok := num()
 			if !ok {
-				return nil, false
+				return nil, pos, false
 			}
 			nk, ok := num()
 			if !ok || nk > 32 {
-				return nil, false
+				return nil, pos, false
 			}
 			var ks []int
 			seen := map[int]bool{}
 			for k := uint64(0); k < nk; k++ {
 				i, ok := keyIdx()
 				if !ok || i >= hNumActionKeys || seen[i] {
-					return nil, false // action keys only, each once per action (a Go map)
+					return nil, pos, false // action keys only, each once per action (a Go map)
 				}
 				seen[i] = true
 				ks = append(ks, i)
@@ -173,16 +185,72 @@ func c12bParse(f []string) (*c12bCase, bool) {
 		}
 		nS, ok := num()
 		if !ok || nS != 1 {
-			return nil, false // the balance handler declares exactly the sponsor's balance key
+			return nil, pos, false // the balance handler declares exactly the sponsor's balance key
 		}
 		si, ok := keyIdx()
 		if !ok || si < hNumActionKeys {
-			return nil, false
+			return nil, pos, false
 		}
 		tx.sponsor = si - hNumActionKeys
-		c.txs = append(c.txs, tx)
+		out = append(out, tx)
 	}
-	return c, pos == len(f)
+	return out, pos, true
+}
+
+// c12bParse2 parses `blk2 <gap> <max×5> <target×5> <rules×7> <nP> <tx>* <nC> <tx>*`.
+func c12bParse2(f []string) (gap uint64, c *c12bCase, child []c12bTx, ok bool) {
+	if len(f) < 21 || f[0] != "blk2" {
+		return 0, nil, nil, false
+	}
+	nums := make([]uint64, 18)
+	for i := range nums {
+		v, err := strconv.ParseUint(f[1+i], 10, 64)
+		if err != nil {
+			return 0, nil, nil, false
+		}
+		nums[i] = v
+	}
+	gap = nums[0]
+	if gap > 50 {
+		return 0, nil, nil, false
+	}
+	c = &c12bCase{mode: "chain", bal: [3]uint64{1 << 60, 1 << 60, 1 << 60}}
+	copy(c.max[:], nums[1:6])
+	copy(c.target[:], nums[6:11])
+	copy(c.rc[:], nums[11:18])
+	nP, err := strconv.Atoi(f[19])
+	if err != nil || nP < 0 || nP > 64 {
+		return 0, nil, nil, false
+	}
+	txs, pos, ok := c12bParseTxs(f, 20, nP)
+	if !ok || pos >= len(f) {
+		return 0, nil, nil, false
+	}
+	nC, err := strconv.Atoi(f[pos])
+	if err != nil || nC < 0 || nC > 64 {
+		return 0, nil, nil, false
+	}
+	child, pos, ok = c12bParseTxs(f, pos+1, nC)
+	if !ok || pos != len(f) {
+		return 0, nil, nil, false
+	}
+	c.txs = txs
+	return gap, c, child, true
+}
+
+func c12bTxFields(sb *strings.Builder, txs []c12bTx) {
+	fmt.Fprintf(sb, " %d", len(txs))
+	for _, t := range txs {
+		fmt.Fprintf(sb, " %d %d %d", t.size, t.authCU, len(t.acus))
+		for i, cu := range t.acus {
+			fmt.Fprintf(sb, " %d %d", cu, len(t.keys[i]))
+			for _, k := range t.keys[i] {
+				sb.WriteByte(' ')
+				sb.WriteString(verifh.Hex(hKey(k)))
+			}
+		}
+		fmt.Fprintf(sb, " 1 %s", verifh.Hex(hKey(hNumActionKeys+t.sponsor)))
+	}
 }
 
 func c12bLine(c *c12bCase) string {
@@ -216,18 +284,27 @@ func c12bProcessor(metrics *chain.ChainMetrics, rules *genesis.Rules) (*chain.Pr
 
 var c12bRich = map[int]uint64{hNumActionKeys: 1 << 60, hNumActionKeys + 1: 1 << 60, hNumActionKeys + 2: 1 << 60}
 
-// c12bExecute runs Processor.Execute on a block holding exactly txs (parent: height 0, time 0,
-// empty fee state). It returns the canonical outcome and the execution results.
+// c12bExecute runs Processor.Execute on a block holding exactly txs (parent: height 0, time
+// parentTs, empty fee state). It returns the canonical outcome and the execution results.
 func c12bExecute(ctx context.Context, metrics *chain.ChainMetrics, rules *genesis.Rules, txs []*chain.Transaction, blockTime int64, parentTs int64, bal map[int]uint64) (string, *chain.ExecutionResults) {
 	db, err := newParentDB(bal, 0, parentTs)
 	if err != nil {
 		return "err-db", nil
 	}
-	root, err := db.GetMerkleRoot(ctx)
+	out, ob := c12bExecOn(ctx, metrics, rules, db, 1, txs, blockTime)
+	if ob == nil {
+		return out, nil
+	}
+	return out, ob.ExecutionResults
+}
+
+// c12bExecOn executes a block of height `height` holding txs on the given parent view.
+func c12bExecOn(ctx context.Context, metrics *chain.ChainMetrics, rules *genesis.Rules, parent merkledb.View, height uint64, txs []*chain.Transaction, blockTime int64) (string, *chain.OutputBlock) {
+	root, err := parent.GetMerkleRoot(ctx)
 	if err != nil {
 		return "err-root", nil
 	}
-	blk, err := chain.NewStatelessBlock(ids.Empty, blockTime, 1, txs, root, &block.Context{})
+	blk, err := chain.NewStatelessBlock(ids.Empty, blockTime, height, txs, root, &block.Context{})
 	if err != nil {
 		return "err-block", nil
 	}
@@ -238,7 +315,7 @@ func c12bExecute(ctx context.Context, metrics *chain.ChainMetrics, rules *genesi
 	ch := make(chan res, 1)
 	go func() {
 		p, stop := c12bProcessor(metrics, rules)
-		o, err := p.Execute(ctx, db, chain.NewExecutionBlock(blk), true)
+		o, err := p.Execute(ctx, parent, chain.NewExecutionBlock(blk), true)
 		stop()
 		ch <- res{o, err}
 	}()
@@ -246,7 +323,7 @@ func c12bExecute(ctx context.Context, metrics *chain.ChainMetrics, rules *genesi
 	case x := <-ch:
 		switch {
 		case x.err == nil:
-			return "ok " + dimsStr(x.o.ExecutionResults.UnitsConsumed, ","), x.o.ExecutionResults
+			return "ok " + dimsStr(x.o.ExecutionResults.UnitsConsumed, ","), x.o
 		case errors.Is(x.err, chain.ErrInvalidUnitsConsumed):
 			// "%w: %d too large"
 			dim := "?"
@@ -264,6 +341,24 @@ func c12bExecute(ctx context.Context, metrics *chain.ChainMetrics, rules *genesi
 	case <-time.After(30 * time.Second):
 		return "hang", nil
 	}
+}
+
+// c12bFits reports whether the exact per-dimension sums of the transactions' units are within max.
+func c12bFits(txs []*chain.Transaction, rules *genesis.Rules, max fees.Dimensions) bool {
+	for k := 0; k < fees.FeeDimensions; k++ {
+		sum := new(big.Int)
+		for _, tx := range txs {
+			u, err := tx.Units(hBalance, rules)
+			if err != nil {
+				return true // not a metering question
+			}
+			sum.Add(sum, new(big.Int).SetUint64(u[k]))
+		}
+		if sum.Cmp(new(big.Int).SetUint64(max[k])) > 0 {
+			return false
+		}
+	}
+	return true
 }
 
 // c12bOracle checks consumed <= max per dimension and consumed = sum of Result.Units.
@@ -308,6 +403,10 @@ func TestVerifC12Block(t *testing.T) {
 		lines = c12bGenerate(r)
 	}
 	for _, l := range lines {
+		if f := verifh.Fields(l); len(f) > 0 && f[0] == "blk2" {
+			c12bChain(ctx, r, metrics, l, f)
+			continue
+		}
 		c, ok := c12bParse(verifh.Fields(l))
 		if !ok {
 			r.Emit(l, "bad-op")
@@ -430,6 +529,71 @@ func TestVerifC12Block(t *testing.T) {
 			r.Violation("built-consumed-ne-verified", "builder recorded %v, verification %v: %s", b.ob.ExecutionResults.UnitsConsumed, er.UnitsConsumed, l)
 		}
 	}
+}
+
+// c12bChain: a non-empty parent block, then a child `gap` seconds later, both through the real
+// Processor; the child is metered on parent.ComputeNext and must record only its own units.
+func c12bChain(ctx context.Context, r *verifh.Run, metrics *chain.ChainMetrics, l string, f []string) {
+	gap, c, childSpecs, ok := c12bParse2(f)
+	if !ok {
+		r.Emit(l, "bad-op")
+		return
+	}
+	rules := c12bRules(c)
+	t1 := c12bBlockTime
+	t2 := c12bBlockTime + int64(gap)*1000 + 500
+	build := func(specs []c12bTx, seq0 int, bt int64) ([]*chain.Transaction, bool) {
+		txs := make([]*chain.Transaction, len(specs))
+		for i := range specs {
+			tx, err := c12bBuild(&specs[i], seq0+i, bt)
+			if err != nil || uint64(tx.Size()) != specs[i].size {
+				return nil, false
+			}
+			if tx.Size() != len(tx.Bytes()) {
+				r.Violation("size-ne-len-bytes", "tx.Size()=%d but len(tx.Bytes())=%d: %s", tx.Size(), len(tx.Bytes()), l)
+			}
+			txs[i] = tx
+		}
+		return txs, true
+	}
+	ptxs, ok1 := build(c.txs, 0, t1)
+	ctxs, ok2 := build(childSpecs, 100, t2)
+	if !ok1 || !ok2 {
+		r.Emit(l, "size-mismatch")
+		return
+	}
+	rules.MinBlockGap = 0
+	db, err := newParentDB(c12bRich, 0, 0)
+	if err != nil {
+		r.Emit(l, "err-db")
+		return
+	}
+	r.Count(fmt.Sprintf("chain:gap=%d", gap))
+	pout, pob := c12bExecOn(ctx, metrics, rules, db, 1, ptxs, t1)
+	if pob == nil {
+		r.Emit(l, "parent:"+pout)
+		if c12bFits(ptxs, rules, c.max) {
+			r.Violation("block-within-max-rejected", "Execute rejected (%s) a parent block whose transactions fit MaxBlockUnits %v: %s", pout, c.max, l)
+		}
+		return
+	}
+	c12bOracle(r, "Execute(parent)", l, c.max, ptxs, rules, pob.ExecutionResults)
+	cout, cob := c12bExecOn(ctx, metrics, rules, pob.View, 2, ctxs, t2)
+	if cob == nil {
+		r.Emit(l, "child:"+cout)
+		r.Count("chain:child-rejected")
+		if c12bFits(ctxs, rules, c.max) {
+			r.Violation("block-within-max-rejected", "Execute rejected (%s) a child block (%d s after a parent that consumed %v) whose own transactions fit MaxBlockUnits %v: %s",
+				cout, gap, pob.ExecutionResults.UnitsConsumed, c.max, l)
+		}
+		return
+	}
+	r.Emit(l, "ok "+dimsStr(pob.ExecutionResults.UnitsConsumed, ",")+" "+dimsStr(cob.ExecutionResults.UnitsConsumed, ","))
+	r.Distinct(l)
+	if !c12bFits(ctxs, rules, c.max) {
+		r.Violation("block-over-max-accepted", "Execute accepted a child block whose transactions' units exceed MaxBlockUnits %v: %s", c.max, l)
+	}
+	c12bOracle(r, fmt.Sprintf("Execute(child, %d s after a parent that consumed %v)", gap, pob.ExecutionResults.UnitsConsumed), l, c.max, ctxs, rules, cob.ExecutionResults)
 }
 
 func c12bGenerate(r *verifh.Run) []string {
@@ -562,6 +726,84 @@ func c12bGenerate(r *verifh.Run) []string {
 			}
 		}
 		lines = append(lines, c12bLine(c))
+	}
+	// two-block chains: non-empty parent, child 0, 1, 9, 10, 11, 30 s (sometimes others) later
+	gaps := []uint64{0, 1, 9, 10, 11, 30}
+	genTxs := func(n, seq0 int, bt int64) []c12bTx {
+		out := make([]c12bTx, 0, n)
+		for i := 0; i < n; i++ {
+			tx := c12bTx{authCU: uint64(rng.Intn(5)), sponsor: rng.Intn(hNumSponsors)}
+			for a, nA := 0, 1+rng.Intn(3); a < nA; a++ {
+				tx.acus = append(tx.acus, 1+uint64(rng.Intn(20)))
+				var ks []int
+				for k := 0; k < hNumActionKeys; k++ {
+					if rng.Intn(4) == 0 {
+						ks = append(ks, k)
+					}
+				}
+				tx.keys = append(tx.keys, ks)
+			}
+			real, err := c12bBuild(&tx, seq0+i, bt)
+			if err != nil {
+				panic(err)
+			}
+			tx.size = uint64(real.Size())
+			out = append(out, tx)
+		}
+		return out
+	}
+	total := func(c *c12bCase, txs []c12bTx, seq0 int, bt int64) (t fees.Dimensions) {
+		rules := c12bRules(c)
+		for i := range txs {
+			real, _ := c12bBuild(&txs[i], seq0+i, bt)
+			u, err := real.Units(hBalance, rules)
+			if err != nil {
+				panic(err)
+			}
+			for k := range t {
+				t[k] += u[k]
+			}
+		}
+		return t
+	}
+	for it, n2 := 0, r.N(120, 2400); it < n2; it++ {
+		gap := gaps[it%len(gaps)]
+		if rng.Intn(8) == 0 {
+			gap = uint64(rng.Intn(40))
+		}
+		c := &c12bCase{mode: "chain"}
+		c.rc = [7]uint64{1 + uint64(rng.Intn(4)), 1 + uint64(rng.Intn(8)), uint64(rng.Intn(4)), uint64(rng.Intn(30)), uint64(rng.Intn(8)), uint64(rng.Intn(15)), uint64(rng.Intn(5))}
+		t2 := c12bBlockTime + int64(gap)*1000 + 500
+		c.txs = genTxs(1+rng.Intn(3), 0, c12bBlockTime)
+		child := genTxs(1+rng.Intn(4), 100, t2)
+		pt, ct := total(c, c.txs, 0, c12bBlockTime), total(c, child, 100, t2)
+		mode := rng.Intn(4)
+		for k := range c.max {
+			want := ct[k] // the child exactly fills the block
+			switch mode {
+			case 1:
+				want = ct[k] + pt[k] + uint64(rng.Intn(5)) // generous
+			case 2:
+				want = ct[k] + uint64(rng.Intn(3))
+			case 3:
+				if k == it%fees.FeeDimensions && ct[k] > 0 {
+					want = ct[k] - 1 // the child exceeds the maximum by one unit
+				}
+			}
+			if want < pt[k] {
+				want = pt[k] // the parent must fit
+			}
+			c.max[k] = want
+			c.target[k] = 1 + want/2
+		}
+		var sb strings.Builder
+		fmt.Fprintf(&sb, "blk2 %d %s %s", gap, dimsStr(c.max, " "), dimsStr(c.target, " "))
+		for _, v := range c.rc {
+			fmt.Fprintf(&sb, " %d", v)
+		}
+		c12bTxFields(&sb, c.txs)
+		c12bTxFields(&sb, child)
+		lines = append(lines, sb.String())
 	}
 	return lines
 }
